@@ -7,9 +7,11 @@ pub const NAMES: [&str; 17] = [
     "V5x0", "V5x2", "V7x1", "V9-T", "V9-D", "V9-TD", "V9-OT+OD", "IPFIX-T", "IPFIX-D", "IPFIX-TD", "IPFIX-T'", "IPFIX-D(absent id)", "V9-D(absent id)", "version-6", "version-0", "garbage", "V9 truncated inside a template",
 ];
 
+/// one 12-byte record followed by (salt mod 4) zero bytes of padding, so that set lengths cover every alignment
 fn body12(salt: usize) -> Vec<u8> {
     let mut b: Vec<u8> = (0..12).map(|j| fill(salt, j)).collect();
     b[6] = 6;
+    b.extend(std::iter::repeat(0).take(salt % 4));
     b
 }
 
@@ -26,7 +28,7 @@ pub fn packet(k: usize, salt: usize) -> Vec<u8> {
         3 => v9_packet(&V9Pkt::new(vec![V9Set::Tpl(vec![v9a], 0)])),
         4 => v9_packet(&V9Pkt::new(vec![V9Set::Data(256, body12(salt))])),
         5 => v9_packet(&V9Pkt::new(vec![V9Set::Tpl(vec![v9a], 0), V9Set::Data(256, body12(salt + 1))])),
-        6 => v9_packet(&V9Pkt::new(vec![V9Set::OptTpl(vec![v9o], 2), V9Set::Data(258, body12(salt + 2)[..8].to_vec())])),
+        6 => v9_packet(&V9Pkt::new(vec![V9Set::OptTpl(vec![v9o], if salt % 2 == 0 { 2 } else { 0 }), V9Set::Data(258, { let mut b = body12(salt + 2)[..8].to_vec(); b.extend(std::iter::repeat(0).take(salt % 3)); b })])),
         7 => ipfix_message(&IpfixMsg::new(vec![IpfixSet::Tpl(vec![ia], 0)])),
         8 => ipfix_message(&IpfixMsg::new(vec![IpfixSet::Data(256, body12(salt + 3))])),
         9 => ipfix_message(&IpfixMsg::new(vec![IpfixSet::Tpl(vec![ia], 0), IpfixSet::Data(256, body12(salt + 4))])),
